@@ -588,7 +588,8 @@ def target_obligations(inp, sched, shape, old, new_slots, t0, which):
     if which == "same":
         # retargeting to the same atoms inserts no target instruction
         obs.append(("c10:same_target_no_retarget", all(s.type != "target" for s in new_slots)))
-        obs.append(("c10:same_target_only_fall_delay", len(new_slots) <= 1))
+        # "retargeting to the same atoms inserts nothing": no slot at all, not even a wait for a pending fall time
+        obs.append(("c10:same_target_inserts_nothing", len(new_slots) == 0))
         return obs
     obs.append(("c10:retarget_slot", len(new_slots) in (1, 2) and new_slots[-1].type == "target"))
     ts = new_slots[-1]
